@@ -8,10 +8,16 @@ import importlib, pkgutil, sys
 sys.path.insert(0, ROOT)
 import vlib
 CHECKS = {}
+GROWTH = []
 for _m in pkgutil.iter_modules(vlib.__path__):
     if _m.name != "core":
         try:
-            CHECKS.update(getattr(importlib.import_module("vlib." + _m.name), "MANIFEST", {}))
+            _mod = importlib.import_module("vlib." + _m.name)
+            CHECKS.update(getattr(_mod, "MANIFEST", {}))
+            for g in getattr(_mod, "EXTRA", []):
+                GROWTH.append(dict(name="growth-" + g, path="/verif/check %s [--tier quick|thorough]" % g,
+                                   serves_properties=sorted(getattr(_mod, "SERVES", [])),
+                                   kind_free_text=" ".join((_mod.__doc__ or "").strip().split("\n\n")[0].split())[:600]))
         except Exception as e:
             print("warning: cannot import vlib.%s: %s" % (_m.name, e))
 CHECKS = dict(sorted(CHECKS.items()))
@@ -34,9 +40,10 @@ def main():
              hooks=dict(guard="verif", enable="go build -tags verif (the harness module resolves go.brendoncarroll.net/p2p through a replace directive to /repo)",
                         baseline_off_cmd=BASELINE, source_commits=hooks, add_only=True),
              engines=[dict(name="tlc+go-harness", path="/verif/check", serves_properties=sorted(CHECKS),
-                           kind_free_text="TLA+ specifications in /verif/spec checked by TLC; Go replayers/recorders in /verif/harness bound to /repo; TLC trace validation")],
+                           kind_free_text="TLA+ specifications in /verif/spec checked by TLC; Go replayers/recorders in /verif/harness bound to /repo; TLC trace validation")]
+                     + sorted(GROWTH, key=lambda g: g["name"]),
              checks=checks, not_applicable=na,
-             notes="Exit 2 + INCONCLUSIVE means infrastructure failure (never a verdict). Known findings: /verif/known_findings.json.")
+             notes="Exit 2 + INCONCLUSIVE means infrastructure failure (never a verdict). Known findings: /verif/known_findings.json. The growth-G0x engines are specification growth beyond the listed properties (same ./check interface, never exit 1 for a listed property).")
     with open(os.path.join(ROOT, "MANIFEST.json"), "w") as f:
         json.dump(m, f, indent=1)
         f.write("\n")
